@@ -8,8 +8,8 @@ import time
 import driver as D
 
 
-def scale_child(shape, n, stack_kb, chords=0, selfsame=0, seed=1, timeout=600):
-    cmd = [D.BIN, "scale", "--shape", shape, "--n", str(n), "--stack-kb", str(stack_kb), "--chords", str(chords), "--selfsame-every", str(selfsame), "--seed", str(seed)]
+def scale_child(shape, n, stack_kb, chords=0, selfsame=0, seed=1, timeout=600, give=None, dev=False):
+    cmd = [D.BIN0 if dev else D.BIN, "scale", "--shape", shape, "--n", str(n), "--stack-kb", str(stack_kb), "--chords", str(chords), "--selfsame-every", str(selfsame), "--seed", str(seed)] + (["--give", give] if give else [])
     try:
         r = subprocess.run(cmd, stdout=subprocess.PIPE, stderr=subprocess.PIPE, timeout=timeout)
     except subprocess.TimeoutExpired:
@@ -23,20 +23,23 @@ def scale_child(shape, n, stack_kb, chords=0, selfsame=0, seed=1, timeout=600):
             j["chords"] = chords
             j["selfsame_every"] = selfsame
             j["seed"] = seed
+            j["give"] = give
+            j["dev"] = dev
             return j
-    return {"error": f"child died: returncode={r.returncode}", "shape": shape, "n": n, "stack_kb": stack_kb, "chords": chords, "selfsame_every": selfsame, "seed": seed, "_code": r.returncode}
+    return {"error": f"child died: returncode={r.returncode}", "shape": shape, "n": n, "stack_kb": stack_kb, "chords": chords, "selfsame_every": selfsame, "seed": seed, "_code": r.returncode, "give": give, "dev": dev}
 
 
 def judge_scale(j):
     """Return None if fine, else (kind, cause, msg)."""
     if "error" in j:
-        return ("crash", "stack-overflow-or-crash", f"reclaiming a {j['shape']} of {j['n']} objects on a {j['stack_kb']} KiB stack did not complete: {j['error']}")
+        how = {None: "", "unwrap": " given up through try_unwrap", "steal": " given up through make_mut with a Weak outstanding"}[j.get("give")]
+        return ("crash", "stack-overflow-or-crash", f"reclaiming a {j['shape']} of {j['n']} objects{how} on a {j['stack_kb']} KiB stack{' (unoptimised build)' if j.get('dev') else ''} did not complete: {j['error']}")
     n, e = j["n"], j["edges"]
     if j["destroyed"] != n or j["double"] != 0:
         return ("not-collected", "group-not-fully-destroyed", f"{j['destroyed']} of {n} objects destroyed ({j['double']} twice)")
     if j.get("count_errors", 0):
         return ("count-mismatch", "big-count-wrong", f"{j['shape']}: strong/weak counts with {j.get('chords')} handles are not exact ({j['count_errors']} wrong observations)")
-    if j["trace_calls"] != 1:
+    if j["trace_calls"] != (0 if j["shape"] == "hubonly" else 1):
         return ("nonlinear", "repeated-traces", f"{j['trace_calls']} traces for one drop of the last outside handle")
     if j["visits"] > n + 2:
         return ("nonlinear", "objects-visited-more-than-once", f"{j['visits']} first-time visits for {n} objects")
@@ -121,9 +124,19 @@ def check_c15(tier, seed, jobs):
     ab = [("ring", 30000), ("mstar", 50000), ("cliques", 20000)] + ([("ring", 400000), ("star", 200000)] if tier == "thorough" else [])
     with cf.ThreadPoolExecutor(max_workers=min(jobs, 6)) as ex:
         ab_results = list(ex.map(lambda s: after_big_child(s[0], s[1], seed), ab))
+    # the same teardown code without optimisation (no tail calls, no inlining: every
+    # library frame is real), and the last handle given up through try_unwrap / make_mut
+    extra = []
+    for dev in (False, True):
+        for give in (None, "unwrap", "steal"):
+            extra.append(dict(shape="hubonly", n=20000, stack_kb=256, give=give, dev=dev))
+        if dev:
+            for shape, n in (("ring", 64000), ("mstar", 20000), ("cliques", 16000), ("star", 20000), ("tail", 64000)):
+                extra.append(dict(shape=shape, n=n, stack_kb=256, give=None, dev=True))
     # big ones are memory hungry: limit parallelism
     with cf.ThreadPoolExecutor(max_workers=min(jobs, 6)) as ex:
         futs = [ex.submit(scale_child, s[0], s[1], s[2], s[3], s[4], seed) for s in sc]
+        futs += [ex.submit(scale_child, e["shape"], e["n"], e["stack_kb"], 0, 0, seed, 600, e["give"], e["dev"]) for e in extra]
         for f in futs:
             results.append(f.result())
     bad = []
@@ -215,7 +228,7 @@ def check_c15(tier, seed, jobs):
         os.makedirs(D.REPLAYS, exist_ok=True)
         path = os.path.join(D.REPLAYS, f"C15-{j['shape']}-{j['n']}-{j.get('stack_kb')}.json")
         with open(path, "w") as f:
-            json.dump({"property": "C15", "engine": j.get("engine", "scale"), "kind": kind, "cause": cause, "growth_from": j.get("growth_from"), "shape": j["shape"], "n": j["n"], "stack_kb": j.get("stack_kb", 128), "chords": j.get("chords", 0), "selfsame_every": j.get("selfsame_every", 0), "seed": j.get("seed", seed), "expect": {"kind": kind, "cause": cause, "msg": msg}}, f, indent=1)
+            json.dump({"property": "C15", "engine": j.get("engine", "scale"), "give": j.get("give"), "dev": j.get("dev"), "kind": kind, "cause": cause, "growth_from": j.get("growth_from"), "shape": j["shape"], "n": j["n"], "stack_kb": j.get("stack_kb", 128), "chords": j.get("chords", 0), "selfsame_every": j.get("selfsame_every", 0), "seed": j.get("seed", seed), "expect": {"kind": kind, "cause": cause, "msg": msg}}, f, indent=1)
         D.write_evidence("C15", tier, seed, "exploration", coverage, time.time() - t0, len(bad))
         print(f"violation kind={kind} cause={cause} msg={msg}")
         print(f"VIOLATION property=C15 replay={path}")
@@ -425,7 +438,7 @@ def check(prop, tier, seed, jobs):
 
 def replay(rec, path, quiet=False):
     if rec.get("engine") == "scale":
-        j = scale_child(rec["shape"], rec["n"], rec["stack_kb"], rec.get("chords", 0), rec.get("selfsame_every", 0), rec.get("seed", 1))
+        j = scale_child(rec["shape"], rec["n"], rec["stack_kb"], rec.get("chords", 0), rec.get("selfsame_every", 0), rec.get("seed", 1), 600, rec.get("give"), bool(rec.get("dev")))
         v = judge_scale(j)
         if not v and rec.get("growth_from"):
             n0 = rec["growth_from"]
